@@ -67,14 +67,13 @@ func New(config ...Config) fiber.Handler {
 					// A line the cookie parser refuses (an attribute it cannot read, e.g. "max-age=soon" that came in
 					// with the value) still goes to the client, which takes the text between the first '=' and the
 					// first ';' as the value: that text is encrypted in place.
-					start := bytes.IndexByte(value, '=') + 1
-					end := bytes.IndexByte(value[start:], ';')
-					if start == 0 {
-						start, end = len(value), -1
+					// (a name-value pair without '=' is a nameless cookie whose value is the whole pair)
+					pair := len(value)
+					if i := bytes.IndexByte(value, ';'); i >= 0 {
+						pair = i
 					}
-					if end < 0 {
-						end = len(value) - start
-					}
+					start := bytes.IndexByte(value[:pair], '=') + 1
+					end := pair - start
 					encryptedValue, err := cfg.Encryptor(string(value[start:start+end]), cfg.Key)
 					if err != nil {
 						panic(err)
